@@ -119,7 +119,7 @@ theorem failSend_mbox (s : Sys) (oid : Nat) (it : Item) :
 theorem CapInv_step (s s' : Sys) (l : Label) (h : CapInv s) (hs : step? s l = some s') : CapInv s' := by
   obtain ⟨hb, ha⟩ := h
   unfold CapInv
-  cases l <;> simp only [step?, Sys.issue] at hs <;> (repeat' split at hs) <;> (try cases hs) <;>
+  cases l <;> simp only [step?, Sys.issue, Sys.runStep] at hs <;> (repeat' split at hs) <;> (try cases hs) <;>
     (try (first | exact ⟨by simpa using hb, by simpa using ha⟩ | skip))
   all_goals (try (simp only [failSend_mbox, afterPush_mbox, afterStrand_mbox, gc_map_acq, complete_mbox, complete_waiters, complete_cap, finish_mbox, finish_waiters, finish_cap]))
   all_goals (try (refine ⟨?_, ?_⟩))
@@ -134,7 +134,7 @@ theorem CapInv_step (s s' : Sys) (l : Label) (h : CapInv s) (hs : step? s l = so
        simp; omega)
 
 theorem cap_const (s s' : Sys) (l : Label) (hs : step? s l = some s') : s'.cap = s.cap := by
-  cases l <;> simp only [step?, Sys.issue] at hs <;> (repeat' split at hs) <;> (try cases hs) <;>
+  cases l <;> simp only [step?, Sys.issue, Sys.runStep] at hs <;> (repeat' split at hs) <;> (try cases hs) <;>
     (try rfl) <;> simp [failSend_mbox, afterPush_mbox, afterStrand_mbox]
 
 /-- C09 `bound`: accepted-but-not-taken items plus reserved slots never exceed the capacity. -/
